@@ -333,7 +333,7 @@ def python_exe():
 def child_env(seed, shard):
     env = dict(os.environ)
     deps = os.path.join(VERIF, ".deps")
-    env["PYTHONPATH"] = os.pathsep.join([REPO, VERIF, deps])
+    env["PYTHONPATH"] = os.pathsep.join([REPO, VERIF, deps, "/verif/.deps"])
     env["PYTHONHASHSEED"] = str(derive_seed(seed, "hash", shard) % 4294967295)
     env["NUMBA_CACHE_DIR"] = os.path.join(WORK, "numba_cache")
     env["PYTHONDONTWRITEBYTECODE"] = "1"
